@@ -184,6 +184,18 @@ func main() {
 			usage()
 		}
 		os.Exit(explain(o.args[0], o))
+	case "mech":
+		// internal: apply a mechanical behaviour-preserving rewrite in place to a scratch
+		// worktree (--repo, never /repo itself)
+		if len(o.args) != 1 || o.repo == "/repo" {
+			usage()
+		}
+		n, err := an.MechRefactor(o.args[0], o.repo)
+		fmt.Printf("%s: %d rewrites\n", o.args[0], n)
+		if err != nil {
+			fmt.Println(err)
+			os.Exit(1)
+		}
 	case "selftest":
 		os.Exit(an.SelfTest(o.verif))
 	case "mutants":
